@@ -526,6 +526,7 @@ Proof.
     - apply Forall_forall. intros n Hn. rewrite forallb_forall in Hpos. apply Z.ltb_lt. auto.
     - apply Z.leb_le; auto. }
   destruct (run_case (tc_o c)) as [states|] eqn:E; [|discriminate].
+  apply andb_true_iff in Hg. destruct Hg as [Hg _].
   exists states. split; auto.
   (* invariant and validity at every state *)
   assert (Hinv : Forall (fun sc => occ_inv_lz (torus_cells (oc_counts (tc_o c))) (fst sc) (case_units (tc_o c))
@@ -568,4 +569,37 @@ Proof.
     rewrite <- Gb, <- Gn, <- Gs.
     rewrite (cell_bounding_same_targets _ _ list_Z_eqb list_Z_eqb list_Z_eqb_spec (case_cs c) OK _ _ Hv (fst sc) a I' Ea).
     exact P.
+Qed.
+
+Lemma veto_ok_in (cs : cellsys lz) (s : ost) (tg : list lz) (u : lz) :
+  veto_ok cs s tg = true -> In u tg -> In u (cell_veto_targets list_Z_eqb cs s).
+Proof.
+  unfold veto_ok, cell_veto_targets. unfold ost, lz in *. intros Hv Hu.
+  destruct (yield_active_cells s) as [|[ac a] rest] eqn:Ey; [discriminate Hv|].
+  apply existsb_exists in Hv. destruct Hv as (r & Hr & Hm). apply same_members_perm in Hm.
+  apply in_flat_map. exists (ac, a). split; [left; reflexivity|].
+  apply in_flat_map. exists r. split; auto.
+  eapply Permutation_in; [symmetry; exact Hm|exact Hu].
+Qed.
+
+(** every committed cell-veto event of an accepted run hands over units that the model's cell-veto family reaches
+    from the replayed state ([cell_veto_targets]); by [run_cells_partition] these are disjoint from the targets of the
+    nearby and surplus taggers *)
+Theorem run_veto_targets_far (c : tcase) :
+  check_tcase_run c = true ->
+  exists states,
+    run_case (tc_o c) = Some states
+    /\ Forall2 (fun sc vs => forall tg u, In tg vs -> In u tg ->
+                              In u (cell_veto_targets list_Z_eqb (case_cs c) (fst sc))) states (tc_vetos c).
+Proof.
+  unfold check_tcase_run. intros H.
+  apply andb_true_iff in H. destruct H as [_ Hg].
+  destruct (run_case (tc_o c)) as [states|]; [|discriminate].
+  apply andb_true_iff in Hg. destruct Hg as [_ Hv].
+  exists states. split; auto.
+  revert Hv. generalize (tc_vetos c) as vs.
+  induction states as [|sc sr IH]; intros [|v vr] Hv; simpl in Hv; try discriminate; constructor.
+  - apply andb_true_iff in Hv. destruct Hv as [Hv _]. rewrite forallb_forall in Hv.
+    intros tg u Htg Hu. apply (veto_ok_in _ _ tg); auto.
+  - apply andb_true_iff in Hv. apply IH. tauto.
 Qed.
